@@ -180,7 +180,9 @@ func jstr(s string) string { b, _ := json.Marshal(s); return string(b) }
 
 func (g *lspGen) text() string {
 	base := []string{"SELECT a FROM t", "SELECT é, 名前 FROM t\nWHERE x = 'ü'", "SELECT 😀 AS e\r\nFROM t\r\n", "", "\n\n", "SELECT a\nFROM\n\nt WHERE", "SELEC a FROM",
-		"a𝒳b\n𝒳\ncc", "SELECT a FROM t WHERE a = ;\nSELECT b FROM u;\nSELECT FROM", "x", "é", "\r\n"}
+		"a𝒳b\n𝒳\ncc", "SELECT a FROM t WHERE a = ;\nSELECT b FROM u;\nSELECT FROM", "x", "é", "\r\n",
+		"SELECT a\nFROM t\nLEFT JOIN u ON\n)\n\n", "SELECT a FROM t\nGROUP BY a\nORDER BY a;\nSELECT b FROM\n;\nSELECT 1", "SELECT a FROM t LEFT OUTER JOIN u ON t.i = u.i INNER JOIN v ON\n\n  WHERE",
+		"SELECT '😀' AS e, a FROM t ORDER BY\n\n;\nSELECT ("}
 	if len(g.texts) > 0 && g.r.Chance(30) {
 		return g.texts[g.r.Intn(len(g.texts))]
 	}
